@@ -4,6 +4,7 @@ package main
 
 import (
 	"encoding/binary"
+	"fmt"
 	"reflect"
 	"strings"
 
@@ -85,8 +86,16 @@ type flagFamily struct {
 	Bound    []string
 }
 
-func le16(v uint64) []byte { b := make([]byte, 2); binary.LittleEndian.PutUint16(b, uint16(v)); return b }
-func le32(v uint64) []byte { b := make([]byte, 4); binary.LittleEndian.PutUint32(b, uint32(v)); return b }
+func le16(v uint64) []byte {
+	b := make([]byte, 2)
+	binary.LittleEndian.PutUint16(b, uint16(v))
+	return b
+}
+func le32(v uint64) []byte {
+	b := make([]byte, 4)
+	binary.LittleEndian.PutUint32(b, uint32(v))
+	return b
+}
 
 var enumFamilies = []enumFamily{
 	{ID: "codes.CommandCode", Dir: dirCodes, Type: "CommandCode", Width: 8, Bound: []string{"CommandCode.String"},
@@ -190,7 +199,7 @@ const nameSep = "\x1f"
 var flagFamilies = []flagFamily{
 	{ID: "uac", Dir: dirLDAP, Type: "UserAccountControl", Width: 32, Mode: exactName,
 		Bound: []string{"UserAccountControl.String", "UserAccountControl.GetFlags"},
-		Dec: []decomposer{{"uac.String", "|", func(w uint64) string { return ldap_attributes.UserAccountControl(w).String() }}},
+		Dec:   []decomposer{{"uac.String", "|", func(w uint64) string { return ldap_attributes.UserAccountControl(w).String() }}},
 		ValDec: func(w uint64) []uint64 {
 			fs := ldap_attributes.UserAccountControl(w).GetFlags()
 			out := make([]uint64, len(fs))
@@ -221,5 +230,35 @@ var flagFamilies = []flagFamily{
 			x.FromBytes(byte(^w)) // the object is decoded into twice; the second decode must win
 			x.FromBytes(byte(w))
 			return strings.Join(x.Name, nameSep)
-		}}}},
+		}},
+			// the flag byte as it arrives: inside a CUSTOM_KEY_INFORMATION value of every size class
+			// (2-byte short form, each optional field present or not, extended form)
+			ckiVia("cki.FromBytes.size2", 2, false), ckiVia("cki.FromBytes.size3", 3, false), ckiVia("cki.FromBytes.size4", 4, false),
+			ckiVia("cki.FromBytes.size5", 5, false), ckiVia("cki.FromBytes.size9", 9, false), ckiVia("cki.FromBytes.size18", 18, false),
+			ckiVia("cki.FromBytes.size19", 19, false), ckiVia("cki.FromBytes.size24", 24, false),
+			ckiVia("cki.FromBytes.short-after-long", 2, true), ckiVia("cki.FromBytes.long-after-long", 19, true),
+		}},
+}
+
+// ckiVia decodes a CUSTOM_KEY_INFORMATION value of the given size whose flag byte is w and
+// returns the decomposition found in its Flags field; with reuse the same object decoded a
+// 24-byte value with the complementary flag byte first.
+func ckiVia(name string, size int, reuse bool) decomposer {
+	return decomposer{name, nameSep, func(w uint64) string {
+		var c key.CustomKeyInformation
+		if reuse {
+			long := make([]byte, 24)
+			long[0], long[1] = 1, byte(^w)
+			c.FromBytes(long, key.KeyCredentialVersion{})
+		}
+		blob := make([]byte, size)
+		blob[0], blob[1] = 1, byte(w)
+		if err := c.FromBytes(blob, key.KeyCredentialVersion{}); err != nil {
+			return "error: " + err.Error()
+		}
+		if c.Flags.Value != byte(w) {
+			return fmt.Sprintf("Flags.Value=%#x", c.Flags.Value)
+		}
+		return strings.Join(c.Flags.Name, nameSep)
+	}}
 }
